@@ -17,6 +17,14 @@ class MethodObject:
         self.pyfunction = pyname.get_object()
         self.pymodule = self.pyfunction.get_module()
         self.resource = self.pymodule.get_resource()
+        if self.resource is not None and (
+            self.resource.project != self.project
+            or self.project.is_ignored(self.resource)
+        ):
+            raise exceptions.RefactoringError(
+                "The function is defined in a module that is ignored "
+                "or outside the project."
+            )
 
     def get_new_class(self, name):
         body = sourceutils.fix_indentation(
